@@ -207,6 +207,34 @@ func c16(x *ctx) {
 			}
 		}
 	}
+	// --- a visibility section that continues after a `class << self` block: the block has no section keyword,
+	// the same keyword, or the other one; the method defined after the block is still private / protected and an
+	// explicit-receiver call from outside must be reported; a public method before the section must not
+	for _, vis := range []string{"private", "protected"} {
+		for _, inner := range []string{"none", "same", "other", "public"} {
+			for _, container := range []string{"class", "included-module"} {
+				innerKw := map[string]string{"none": "", "same": vis, "other": map[string]string{"private": "protected", "protected": "private"}[vis], "public": "public"}[inner]
+				body := "  def open_m\n    1.5\n  end\n\n  " + vis + "\n\n  def hid_a\n    1\n  end\n\n  class << self\n"
+				if innerKw != "" {
+					body += "    " + innerKw + "\n\n"
+				}
+				body += "    def cm\n      1\n    end\n  end\n\n  def hid_b\n    2\n  end\n"
+				var defs string
+				if container == "class" {
+					defs = "class Lvone\n" + body + "end\n"
+				} else {
+					defs = "module Lvmod\n" + body + "end\nclass Lvone\n  include Lvmod\nend\n"
+				}
+				tag := fmt.Sprintf("names=0:%s:inner=%s:%s", vis, inner, container)
+				src := defs + "o = Lvone.new\ndbtp o.hid_b\n"
+				add(src, lines(src), true, "", "section-after-class-self:"+tag)
+				src = defs + "o = Lvone.new\ndbtp o.hid_a\n"
+				add(src, lines(src), true, "", "section-before-class-self:"+tag)
+				src = defs + "o = Lvone.new\ndbtp o.open_m\n"
+				add(src, lines(src), false, "Float", "public-before-section:"+tag)
+			}
+		}
+	}
 	cases := make([]*engine.Case, len(progs))
 	for i, p := range progs {
 		cfg := "core"
